@@ -809,6 +809,15 @@ def hybrid_facts(ctx, H):
                 and C.is_ext_call(ctx, n.value, fn, ("hashlib.sha1", "hashlib.sha256", "hashlib.md5")) and not n.value.args:
             acc = n.targets[0].id
             F["v1.hash"] = Fact(C.ext_name(ctx, n.value, fn)[0], n, fn)
+    if acc is not None:
+        # the accumulator goes by another name as well (piece = acc; a, b = (x, acc)): what is done through that name is not seen
+        aliased = [n for n in own_nodes(fn.node) if isinstance(n, ast.Assign) and n.value is not None
+                   and any(isinstance(x, ast.Name) and x.id == acc and isinstance(x.ctx, ast.Load) and (x is n.value or (isinstance(n.value, (ast.Tuple, ast.List)) and any(x is e for e in n.value.elts)))
+                           for x in ast.walk(n.value))]
+        if aliased:
+            for k in ("v1.data", "v1.gap", "v1.zero.ext", "v1.pad.record", "v1.piece", "v1.zero.guard"):
+                F[k] = und("the SHA-1 accumulator `%s` is also known by another name (`%s`): what is hashed through that name is not followed" % (acc, norm(aliased[0])[:50]), aliased[0], fn)
+            return F
     if acc is None:
         return None
     ups = [n for n in own_nodes(fn.node) if isinstance(n, ast.Call) and isinstance(n.func, ast.Attribute) and n.func.attr == "update" and isinstance(n.func.value, ast.Name)
